@@ -58,8 +58,33 @@ def run_aligner_case(case):
     return [(bad[0], None)], nseg, pairs
 
 
-def aligner_chunk(seeds):
+def dense_case(seed):
+    """densely labelled maps: neighbouring labels closer to each other than maxDistance, every query label displaced independently - several
+    candidates per label, doublets displaced by more than half their spacing (where a pairing rule other than mutual-nearest crosses pairs)"""
+    import random
+    rnd = random.Random(seed)
+    n = rnd.randint(10, 30)
+    ref, x = [], rnd.randint(1000, 3000)
+    for _ in range(n):
+        ref.append(x)
+        x += rnd.choice((300, 500, 700, 900, 1200, 2500, 6000))
+    a = rnd.randint(0, n // 3)
+    q = [p - ref[a] + rnd.randint(-600, 600) for p in ref[a:]]
+    q = sorted(set(max(0, p) for p in q))
+    shift0 = q[0]
+    q = [p - shift0 for p in q]
+    base = ref[a] + shift0
+    peaks = [base + rnd.randint(-200, 200)] + ([base + rnd.choice((-1, 1)) * rnd.randint(400, 1500)] if rnd.random() < 0.5 else [])
+    return dict(ref=ref, query=q, reverse=rnd.random() < 0.5, peaks=peaks, maxDistance=rnd.choice((800, 1500, 2000)), seed=seed, dense=True)
+
+
+def make_case(s):
     from bcheck.c15 import build_case
+    return dense_case(s) if s % 4 == 3 else build_case(s)
+
+
+def aligner_chunk(seeds):
+    build_case = make_case
     out, nt = [], 0
     for s in seeds:
         case = build_case(s)
@@ -91,10 +116,11 @@ def bounded(repo, tier, seed):
                 tgt = known if mech else viol
                 if key not in tgt or len(case['query']) < len(tgt[key]['input']['aligner_case']['query']):
                     tgt[key] = dict(key=key, blame=ALIGN, input=dict(aligner_case=case), observed=dict(pairs=pairs, violated=clause), required='C01 statement')
-    from bcheck.c15 import build_case
+    build_case = make_case
     r2 = result(sum(r[0] for r in res), sum(r[1] for r in res),
                 "candidate rows of the real Aligner.align (engine + scorer + segment factory + chainer + conflict resolver) on generated label data with 2-6 "
-                "seed peaks on neighbouring diagonals (stretched, indel, repeat-expansion, noisy molecules; spread shifts), both strands, maxDistance "
+                "seed peaks on neighbouring diagonals (stretched, indel, repeat-expansion, noisy molecules; spread shifts) and, for a quarter of the cases, on densely "
+                "labelled maps (neighbouring labels closer than maxDistance, every label displaced independently), both strands, maxDistance "
                 "500-2000: labels exist, each label at most once, strictly ascending reference order, query order by strand, label numbers name the paired "
                 "coordinates; non-trivial = the candidate has >= 2 segments",
                 [build_case(seeds[0])], list(viol.values())[:5] + list(known.values())[:3], exhaustive=False, bounds=f"{na} generated cases")
